@@ -110,6 +110,31 @@ def generate(repo):
                     r'epoch = boost::get<optional<datetime_t> >\(apply_stack\.front\(\)\.value\); '
                     r'apply_stack\.pop_front\(\); \} apply_stack\.pop_front\(\); ', tail) and len(re.findall(r'\bepoch\b', pb)) == 1:
             fend = True
+    # temporal_io_t<date_t, ...>::parse: the struct tm handed to strptime is zeroed, its year preset with the
+    # current year (minus 1900) and its day with 1; a successful strptime goes to gregorian::date_from_tm
+    tm_base, tm_mday = -1, -1
+    mparse = re.search(r'date_t\s+temporal_io_t\s*<\s*date_t\s*,[^>]*>\s*::\s*parse\s*\(\s*const\s+char\s*\*\s*str\s*\)\s*\{(.*?)\n  \}', src, re.S)
+    if mparse:
+        pb = re.sub(r'//[^\n]*', '', mparse.group(1))
+        pb = re.sub(r'\s+', ' ', pb).strip()
+        mm = re.fullmatch(r'std::tm data; std::memset\(&data, 0, sizeof\(std::tm\)\); '
+                          r'data\.tm_year = CURRENT_DATE\(\)\.year\(\) - (\d+); data\.tm_mday = (\d+); '
+                          r'if \(strptime\(str, fmt_str\.c_str\(\), &data\)\) return gregorian::date_from_tm\(data\); '
+                          r'else return date_t\(\);', pb)
+        if mm:
+            tm_base, tm_mday = int(mm.group(1)), int(mm.group(2))
+    # parse_date_mask_routine: the comparison of the re-formatted date with the input - the only byte of the
+    # formatted text that may be skipped, and the test that both texts are used up
+    skip = -1
+    mr = re.search(r'date_t\s+parse_date_mask_routine\s*\(.*?\n  \}', src, re.S)
+    if mr:
+        rb = re.sub(r'//[^\n]*', '', mr.group(0))
+        rb = re.sub(r'\s+', ' ', rb)
+        mm = re.search(r"string when_str = io\.format\(when\); const char \* p = when_str\.c_str\(\); const char \* q = buf; "
+                       r"for \(; \*p && \*q; p\+\+, q\+\+\) \{ if \(\*p != \*q && \*p == '(.)'\) p\+\+; if \(! \*p \|\| \*p != \*q\) break; \} "
+                       r"if \(\*p != '\\0' \|\| \*q != '\\0'\) throw_\(date_error,", rb)
+        if mm and len(re.findall(r'when_str', rb)) == 2:
+            skip = ord(mm.group(1))
     text = ['(* GENERATED by harness/translators/c14_formats.py from src/times.cc - do not edit *)',
             'From Coq Require Import ZArith List.', 'Import ListNotations.', 'Local Open Scope Z_scope.',
             '(* times_initialize: readers.push_back(... new date_io_t(FMT, true)), in order *)',
@@ -136,5 +161,12 @@ def generate(repo):
             '(* textual.cc instance_t::parse at end of file: while the own apply stack of the file has entries, a year entry at the',
             '   front puts the clock it saved back and the front is popped - the whole own stack, newest first, and only it *)',
             'Definition src_file_end_unwinds_own_stack : bool := %s.' % ('true' if fend else 'false (* unrecognised *)'),
+            '(* temporal_io_t<date_t>::parse: data.tm_year = CURRENT_DATE().year() - BASE; data.tm_mday = MDAY; then strptime and date_from_tm *)',
+            'Definition src_tm_year_base : Z := %s.' % (tm_base if tm_base >= 0 else '(-1) (* unrecognised *)'),
+            'Definition src_tm_mday_preset : Z := %s.' % (tm_mday if tm_mday >= 0 else '(-1) (* unrecognised *)'),
+            '(* parse_date_mask_routine, the loop that compares the re-formatted date (p) with the input (q): a byte of p that differs',
+            '   from the byte of q is stepped over when it is BYTE, any other difference ends the loop, and both texts must be used up:',
+            '   BYTE is the one byte of the re-formatted date that the input may leave out *)',
+            'Definition src_compare_skip_byte : Z := %s.' % (skip if skip >= 0 else '(-1) (* unrecognised *)'),
             '']
     return {'DateFormats.v': '\n'.join(text)}
